@@ -35,7 +35,7 @@ def run_case(case):
     dims = gen.common_dims(rng)
     stats = {"pulls": 0, "bytes_compared": 0, "cut_offsets": 0, "callbacks": 0, "nested_stat_streams": 0, "device_wrtes": 0}
     viol = []
-    tmp = tempfile.mkdtemp(prefix="verif-c08-", dir="/tmp")
+    tmp = tempfile.mkdtemp(prefix="verif-c08-", dir=os.environ.get("VERIF_TMP", "/tmp"))
     try:
         if case["kind"] == "rand":
             size = case.get("size") or rng.choice([0, 1, 2, 7, 8, 9, 100, 1000, 4088, 4096, 5000, 65535, 65536, 65537, 70000, 140000] + ([600000] if rng.random() < 0.1 else []))
